@@ -22,6 +22,8 @@ use sync::{Mutex, RwLock};
 pub enum MKind {
     Lock,
     TryLock,
+    /// `{:?}` of the mutex itself: takes the lock (try_lock) for as long as the value is formatted
+    Debug,
 }
 
 #[derive(Debug, Clone, Copy, Serialize, Deserialize, PartialEq, Eq, Hash)]
@@ -108,6 +110,35 @@ impl Monitor {
     }
 }
 
+// `{:?}` of a lock formats the protected value while holding the lock: the value's Debug impl is the
+// critical section. Which monitor and how many extra scheduling points: per modelled thread.
+struct DbgCtx {
+    mon: std::cell::RefCell<Option<Rc<Monitor>>>,
+    hold: [std::cell::Cell<u8>; shim::MAXT],
+}
+unsafe impl Sync for DbgCtx {}
+static DBG: DbgCtx = DbgCtx { mon: std::cell::RefCell::new(None), hold: [const { std::cell::Cell::new(0) }; shim::MAXT] };
+
+impl std::fmt::Debug for Tracked {
+    fn fmt(&self, f: &mut std::fmt::Formatter<'_>) -> std::fmt::Result {
+        let mon = DBG.mon.borrow().clone();
+        let Some(mon) = mon else { return write!(f, "{}", self.peek()) };
+        let t = shim::current();
+        mon.enter_excl("the lock inside Debug::fmt");
+        critical_read(&mon, self, DBG.hold[t.min(shim::MAXT - 1)].get());
+        mon.exit_excl();
+        write!(f, "{}", self.peek())
+    }
+}
+
+struct NullSink(usize);
+impl std::fmt::Write for NullSink {
+    fn write_str(&mut self, s: &str) -> std::fmt::Result {
+        self.0 += s.len();
+        Ok(())
+    }
+}
+
 fn critical_write(mon: &Monitor, data: &Tracked, hold: u8) {
     let v = data.read();
     for _ in 0..hold {
@@ -146,6 +177,7 @@ fn run_mutex(c: &MutexCase) -> Result<ExecSummary, Failure> {
     }
     let mutex = Rc::new(Mutex::new(Tracked::new(0)));
     let mon = Rc::new(Monitor::new());
+    *DBG.mon.borrow_mut() = Some(mon.clone());
     let mut bodies: Vec<Box<dyn FnOnce() + 'static>> = Vec::new();
     for (t, ops) in c.prog.iter().enumerate().take(shim::MAXT) {
         let ops = ops.clone();
@@ -188,11 +220,23 @@ fn run_mutex(c: &MutexCase) -> Result<ExecSummary, Failure> {
                         }
                         mon.deactivate(t);
                     }
+                    MKind::Debug => {
+                        use std::fmt::Write as _;
+                        // (a formatter that finds the mutex locked prints a placeholder and touches nothing)
+                        DBG.hold[t.min(shim::MAXT - 1)].set(hold);
+                        mon.activate(t);
+                        shim::ex().threads[t].in_try = true;
+                        let mut sink = NullSink(0);
+                        let _ = write!(sink, "{:?}", &*mutex);
+                        shim::ex().threads[t].in_try = false;
+                        mon.deactivate(t);
+                    }
                 }
             }
         }));
     }
     let out = shim::run_execution(c.sched.clone(), c.events.clone(), STEP_BUDGET, bodies);
+    *DBG.mon.borrow_mut() = None;
     if let Some((sig, what)) = out.failure {
         return Err(Failure::new(format!("Mutex|{sig}"), what));
     }
@@ -465,7 +509,7 @@ fn events_strategy() -> impl Strategy<Value = Events> {
 }
 
 fn mutex_case() -> impl Strategy<Value = MutexCase> {
-    let op = (prop_oneof![3 => Just(MKind::Lock), 1 => Just(MKind::TryLock)], 0u8..4);
+    let op = (prop_oneof![6 => Just(MKind::Lock), 2 => Just(MKind::TryLock), 1 => Just(MKind::Debug)], 0u8..4);
     let thread = prop::collection::vec(op, 1..=3);
     (prop::collection::vec(thread, 2..=4), sched_strategy(), events_strategy()).prop_map(|(prog, sched, events)| MutexCase { prog, sched, events })
 }
@@ -694,7 +738,7 @@ fn main() {
             } else {
                 exhaustive_mutex(ctx);
                 {
-                    exhaustive3(ctx, "mutex-exh3", &[(MKind::Lock, 0u8), (MKind::Lock, 1), (MKind::TryLock, 0)], &|prog, sched| {
+                    exhaustive3(ctx, "mutex-exh3", &[(MKind::Lock, 0u8), (MKind::Lock, 1), (MKind::TryLock, 0), (MKind::Debug, 1)], &|prog, sched| {
                         let case = MutexCase { prog: prog.clone(), sched, events: Events::default() };
                         let r = run_mutex(&case);
                         (Box::new(case), r)
